@@ -92,6 +92,19 @@ CHECKS = {
         "after a final order_rows.",
         "4/C19",
     ),
+    "C09": (
+        "invariant at a hook on every executed project / windowed-extend step; per-node SQL runs",
+        "Wrappers on the real Pandas and Polars _project_step/_extend_step re-materialise the node's input and assert, "
+        "for every such node any workload executes: rows out == distinct key combinations of the input (null is a "
+        "key), exactly one row without group_by (also on empty input), windowed extend keeps every row, per-group "
+        "sum/min/max/count/size/mean equal a reference computed over that group. For SQLite and the PostgreSQL "
+        "dialect (surrogate) every project/window node of the recipe is executed as its own root next to its source "
+        "and judged by the same invariant; pipelines ending in project + overwrite/drop of all its outputs are "
+        "checked for cardinality on both SQL dialects.",
+        "Trusted: the 30-line per-group reference; sum over a group without non-null value and count/size of an empty "
+        "ungrouped input are not compared (accepted convention).",
+        "4/C09",
+    ),
 }
 
 NOT_BUILT = "check not built yet (build in progress, see DESIGN.md section 8)"
